@@ -285,6 +285,35 @@ def r5_only_via_wrapper(c, facts):
     c.floor(R, 'named memoised productions', n, 1)
 
 
+def r7_hit_constant_and_shared(c, facts):
+    """a memo hit costs O(1) token reads, and what the table holds is returned as it is (a node handed out several times
+    is shared: whoever appends to it changes the tree every other requester got)"""
+    R = c.rule('C12.R7', 'HIT-CONSTANT / RESULT-SHARED: lookup() does no token work on a hit; a memoising wrapper returns the memoised result untouched')
+    lk = c.anchor(R, 'oal_model::grammar::Context::lookup')
+    loops = [b for b, _ in lk.blocks() if any(b in lk.reachable_from(x) for x in lk.succ(b))]
+    reads = sorted({P.strip(callee_of(t)['def']).split('::')[-1] for b, t in lk.calls() if callee_of(t) and P.strip(callee_of(t)['def']).split('::')[-1] in ('pop', 'peek', 'advance', 'skip_trivia', 'head', 'alias', 'token_span', 'kind')})
+    if loops or reads:
+        c.bad(R, 'lookup:work-on-hit:%s' % ','.join((['loop'] if loops else []) + reads), 'Context::lookup %s: a memo hit costs work proportional to the length of the cached production, so nested input is quadratic again' % ('contains a loop' + (' and reads tokens (%s)' % reads if reads else '') if loops else 'reads tokens (%s)' % reads))
+    else:
+        c.ok(R, {'Context::lookup': 'no loop, no token access'})
+    n = 0
+    for fn in sorted(facts.fns.values(), key=lambda f: f.qname):
+        if fn.crate != 'oal_syntax' or not fn.mir or fn.kind == 'Closure':
+            continue
+        ms = P.call_blocks(fn, 'grammar::memoize')
+        if not ms:
+            continue
+        n += 1
+        mb, mt = ms[0]
+        after = [P.strip(callee_of(t)['def']).split('::')[-1] for b, t in fn.calls() if b in fn.reachable_from(mt['target']) and callee_of(t)]
+        direct = mt['dest']['l'] == 0 or not after
+        if direct:
+            c.ok(R, {'wrapper': fn.qname, 'returns': 'the memoised result, untouched'})
+        else:
+            c.bad(R, '%s:memoised-result-post-processed:%s' % (fn.qname.split('::')[-1], ','.join(sorted(set(after)))), '%s works on the result of memoize() before returning it (%s): on a hit the shared cached node is modified again, so the tree with the memo table differs from the tree without it' % (fn.qname, sorted(set(after))))
+    c.floor(R, 'memoising wrappers', n, 2)
+
+
 def r6_memo_monotone(c, facts):
     """an entry, once stored, stays available until the parse ends, and every result is stored while caching is on"""
     R = c.rule('C12.R6', 'MEMO-MONOTONE: the memo table only grows: one insert site, no removal, and storing depends on nothing but the bypass switch')
@@ -395,6 +424,7 @@ def r6_memo_monotone(c, facts):
 
 
 def run(c, facts):
+    c.run(r7_hit_constant_and_shared, facts)
     c.run(r6_memo_monotone, facts)
     c.run(r5_only_via_wrapper, facts)
     c.run(r1_tag_injective, facts)
